@@ -250,10 +250,17 @@ SGal3Base<_Derived>::inverse(OptJacobianRef J_minv_m) const {
 
   const SO3<Scalar> so3inv = asSO3().inverse();
 
+  // Note: translation() and t()*linearVelocity() are rotated separately
+  // so that the terms of inverse().compose(*this) cancel exactly,
+  // as they do for the other groups. Rotating their (rounded) difference
+  // leaves a residual of the order of eps*|t*v| in X^-1*X,
+  // which is enough for X == X to be false.
+  const LinearVelocity vinv = so3inv.act(linearVelocity());
+
   return LieGroup(
-    -so3inv.act((translation()-t()*linearVelocity())),
+    -so3inv.act(translation()) + t() * vinv,
      so3inv,
-    -so3inv.act(linearVelocity()),
+    -vinv,
     -t()
   );
 }
